@@ -89,7 +89,7 @@ pub fn run(s: &Session) {
         edits (lovelace moved into or out of the change output, mint without output, burn of an asset absent from the inputs, \
         asset from nowhere, a burn compensated by an output of 2^64-n so that it balances only in wrapped arithmetic, quantities \
         near 2^64, arbitrary fee), re-signed; all post-Byron eras; plus self-signed Byron transactions (public-key and redeem inputs) that over- and under-pay. Oracle: accepted => for ada and every asset spent + minted = \
-        produced + fee in unbounded integers read through cborx (Byron: inputs - outputs >= summand + multiplier * body size, and >= 0 for redeem-only transactions). Non-trivial = an accepted case; distinct = distinct recipe");
+        produced + fee in unbounded integers read through cborx (Byron: inputs - outputs >= summand + multiplier * (size of body + witnesses), and >= 0 for redeem-only transactions). Non-trivial = an accepted case; distinct = distinct recipe");
     s.assume("a panic during validation is counted and left to C33 (this build has overflow checks on, as the project's test profile)");
     s.forall("byron-fee-balance", s.pick(60_000, 1_000_000), crate::c33::byron_spec, |b, obs| {
         let f = match crate::byron::forge(b) {
@@ -111,10 +111,13 @@ pub fn run(s: &Session) {
             Some(Err(_)) => obs.class("byron:rejected"),
             Some(Ok(())) => {
                 obs.class(if f.all_redeem { "byron:accepted:redeem-only" } else { "byron:accepted" });
-                // weakest reading of "the minimum fee": linear in the size of the transaction body alone
-                // (the validator itself uses body + witnesses, the node body + witnesses + framing);
                 // a transaction spending only redeem addresses pays no fee but must still not create value
-                let min_fee: u128 = if f.all_redeem { 0 } else { crate::byron::SUMMAND as u128 + crate::byron::MULTIPLIER as u128 * f.tx.len() as u128 };
+                // weak reading: linear in the size of transaction body + witnesses (what the validator measures; the node
+                // adds the framing byte of the pair, so this never demands more than the ledger does)
+                let min_fee: u128 = if f.all_redeem { 0 } else { crate::byron::SUMMAND as u128 + crate::byron::MULTIPLIER as u128 * f.size_tx_and_wits as u128 };
+                if !f.all_redeem && f.sum_in >= f.sum_out && f.sum_in - f.sum_out < min_fee + 2 * crate::byron::MULTIPLIER as u128 {
+                    obs.class("byron:accepted:within-two-size-units-of-the-minimum");
+                }
                 pv_ensure!(f.sum_in >= f.sum_out && f.sum_in - f.sum_out >= min_fee,
                     if f.all_redeem { "byron-redeem-creates-value" } else { "byron-fee-below-minimum-accepted" },
                     "accepted although inputs hold {} and outputs {} lovelace (minimum fee {})", f.sum_in, f.sum_out, min_fee);
